@@ -75,9 +75,17 @@ Definition candidates (p : Z) (m : list (N * user)) : list (N * user) :=
 
 Definition has_disp (evs : list aev) : bool := existsb (fun e => is_disp (a_type e)) evs.
 
+(* the scan stops at the first candidate in Go's (random) iteration order: any candidate
+   may be the one; [choice] selects it (taken modulo the number of candidates) *)
+Definition pick {A} (choice : nat) (l : list A) : option A :=
+  match l with
+  | [] => None
+  | x :: _ => Some (nth (choice mod length l) l x)
+  end.
+
 Definition remote_login (st : tstate) (l : login) (choice : nat) : tstate * list emitted * tres :=
   if negb (validate l) then (st, [], RErrValidate) else
-  match nth_error (candidates (l_pid l) (sess st)) choice with
+  match pick choice (candidates (l_pid l) (sess st)) with
   | Some (s, u) =>
       (* bind in place, flush the held events *)
       let '(b', out, ok) := write_all (wb st) l (u_cached u) in
